@@ -16,6 +16,7 @@ import (
 	"k8s.io/client-go/tools/record"
 
 	"github.com/koordinator-sh/koordinator/apis/configuration"
+	"github.com/koordinator-sh/koordinator/apis/extension"
 	slov1alpha1 "github.com/koordinator-sh/koordinator/apis/slo/v1alpha1"
 	"github.com/koordinator-sh/koordinator/pkg/util/sloconfig"
 )
@@ -888,8 +889,11 @@ func TestVerifC20(t *testing.T) {
 
 			// ---- probes
 			for pr := range probes {
-				labels, kv, node := probes[pr].labels, probes[pr].kv, probes[pr].node
-				h.Op("node %d %s", len(labels), vIntsI(kv))
+				labels, kv, node, bw := probes[pr].labels, probes[pr].kv, probes[pr].node, probes[pr].bw
+				h.Op("node %d %d %s", bw, len(labels), vIntsI(kv))
+				if bw != -1 {
+					h.Tag("probe:bandwidth-annotation")
+				}
 				lkey := vIntsI(kv)
 				var oldSpec *slov1alpha1.NodeSLOSpec
 				if r.Bool() {
@@ -907,6 +911,9 @@ func TestVerifC20(t *testing.T) {
 				for s := 0; s < 5; s++ {
 					if isNil[s] {
 						h.Obs("o %d nil", s)
+						if s == 3 && bw == -2 {
+							continue // unparsable bandwidth annotation: outside the property (the system strategy is withheld)
+						}
 						if !secBroken[s] {
 							secBroken[s] = true
 							fail("C20:nil-section:"+c20SecNames[s], "section %s delivered as nil", c20SecNames[s])
@@ -917,7 +924,7 @@ func TestVerifC20(t *testing.T) {
 					for _, e := range fl {
 						h.Obs("o %d %s", s, c20Line(e))
 					}
-					if secBroken[s] {
+					if secBroken[s] || (s == 3 && bw == -2) {
 						continue
 					}
 					// ---- oracle: layering of the raw trees, path by path
@@ -965,7 +972,11 @@ func TestVerifC20(t *testing.T) {
 						if len(layers) == 3 && len(layers[0]) > 0 && len(layers[1]) > 0 {
 							allLayers = true
 						}
-						return c20ExpectAll(layers)
+						out := c20ExpectAll(layers)
+						if s == 3 && bw >= 0 {
+							out["1"] = bw // the node's own bandwidth annotation takes precedence (outside the layering statement)
+						}
+						return out
 					}
 					first := -1
 					if len(matching) > 0 {
@@ -1031,6 +1042,7 @@ type c20Probe struct {
 	labels map[int]int
 	kv     []int
 	node   *corev1.Node
+	bw     int64 // node bandwidth annotation: -1 none, -2 unparsable, else its value
 }
 
 func c20GenProbes(r *vRand) []c20Probe {
@@ -1058,7 +1070,23 @@ func c20GenProbes(r *vRand) []c20Probe {
 		if len(labels) == 0 && r.Bool() {
 			node.Labels = nil
 		}
-		ps[pr] = c20Probe{labels, kv, node}
+		bw := int64(-1)
+		if r.Chance(1, 8) {
+			switch r.Intn(3) {
+			case 0:
+				node.Annotations = map[string]string{extension.AnnotationNodeBandwidth: "abc"}
+				bw = -2
+			case 1:
+				node.Annotations = map[string]string{extension.AnnotationNodeBandwidth: "5G"}
+				bw = 5000000000
+			default:
+				node.Annotations = map[string]string{extension.AnnotationNodeBandwidth: "0"}
+				bw = 0
+			}
+		} else if r.Chance(1, 8) {
+			node.Annotations = map[string]string{"other": "x"}
+		}
+		ps[pr] = c20Probe{labels, kv, node, bw}
 	}
 	return ps
 }
